@@ -12,6 +12,9 @@ base = json.load(open('/root/.vp/BASELINE.json'))
 fd, out = tempfile.mkstemp(suffix='.xml', dir='/var/tmp')
 os.close(fd)
 cmd = base['cmd'].replace('<file>', out)
+if len(sys.argv) > 1:
+    # run the pinned suite in another checkout (seeded-change validation)
+    cmd = cmd.replace('cd /repo', 'cd ' + sys.argv[1])
 env = dict(os.environ)
 env.pop('JEDI_VERIF', None)
 r = subprocess.run(cmd, shell=True, env=env, capture_output=True, text=True)
